@@ -15,6 +15,7 @@ pub fn subs() -> Vec<Sub> {
         Sub { name: "utf8", run: run_utf8 },
         Sub { name: "pairsweep", run: run_pairsweep },
         Sub { name: "lengths", run: run_lengths },
+        Sub { name: "hugelen", run: run_hugelen },
     ]
 }
 
@@ -120,6 +121,64 @@ fn run_utf8(ctx: &Ctx) -> CheckResult {
     Ok(())
 }
 
+/// Inputs whose length does not fit in 32 bits: a lazily mapped slab of 2^32 + 512 bytes that
+/// starts with a valid string (prefixed, then bare); slices of 2^32 + L bytes for the two valid
+/// lengths L and a few others, all three prefix modes, all three entry points.  "A length error
+/// for every wrong length" must not be decided on a truncated length.
+fn run_hugelen(ctx: &Ctx) -> CheckResult {
+    if ctx.tier == crate::ctx::Tier::Quick && ctx.config != "default" {
+        ctx.skipped("hugelen: quick tier runs it in the default configuration only");
+        return Ok(());
+    }
+    let mut slab = vec![0u8; (1usize << 32) + 512];
+    let mut n = 0u64;
+    for va in ctx.api.variants() {
+        let v = va.v();
+        let mut base = ctx.sample_values(&format!("hugelen/{}", v.name), 1, &proptest::collection::vec(any::<u8>(), v.size())).remove(0);
+        base[0] %= 49;
+        base[v.ck] %= 170;
+        for with in [true, false] {
+            let t = vmodel::text::encode(v, &base, with);
+            slab[..t.len()].copy_from_slice(&t);
+            // the rest of the slab is NUL: valid UTF-8, never a digit
+            for l in [v.len_hex(), v.len_str(), 0, 1, 2, v.len_str() + 1] {
+                let s = &slab[..(1usize << 32) + l];
+                let text = unsafe { std::str::from_utf8_unchecked(s) };
+                for p in MODES {
+                    let rs = [
+                        ("from_str_bytes", crate::ctx::catch(|| va.from_str_bytes(s, p).map(|_| ()))),
+                        ("from_str_with", crate::ctx::catch(|| va.from_str_with(text, p).map(|_| ()))),
+                        ("FromStr::from_str", crate::ctx::catch(|| va.from_str(text).map(|_| ()))),
+                    ];
+                    for (what, r) in rs {
+                        n += 1;
+                        let bad = match r {
+                            Ok(Err(crate::api::PErr::InvalidStringLength)) => None,
+                            Ok(Ok(())) => Some("accepted it".to_string()),
+                            Ok(Err(e)) => Some(format!("reported {:?}, which does not apply to a wrong length", e)),
+                            Err(pm) => Some(format!("panicked: {}", pm)),
+                        };
+                        if let Some(b) = bad {
+                            slab[..t.len()].fill(0);
+                            return Err(ctx.violation(
+                                "hugelen",
+                                format!("{}: {} on a string of 2^32 + {} bytes (starting with a valid {} string, then NUL bytes), prefix mode {:?}: {}", v.name, what, l, if with { "prefixed" } else { "bare" }, p, b),
+                                json!({"variant": v.name, "l": l}),
+                            ));
+                        }
+                    }
+                }
+            }
+            slab[..t.len()].fill(0);
+        }
+    }
+    ctx.ev.borrow_mut().evaluations += n;
+    ctx.ev.borrow_mut().nontrivial_enumerated += n;
+    ctx.subcheck("hugelen", n);
+    ctx.ev.borrow_mut().sample(json!({"check": "hugelen", "lengths": "2^32 + {0, 1, 2, LEN_HEX, LEN_STR, LEN_STR + 1}", "entry_points": 3, "modes": 3}));
+    Ok(())
+}
+
 /// The digit decoders work on two-character pairs: for every header pair and for the first,
 /// a middle and the last body pair (thorough: every body pair), ALL 256 x 256 character
 /// combinations on a valid base string, i.e. the complete domain of the pair decoders of this
@@ -201,7 +260,11 @@ fn run_lengths(ctx: &Ctx) -> CheckResult {
     Ok(())
 }
 
-pub fn replay(ctx: &Ctx, _check: &str, case: &Value) -> Result<(), String> {
+pub fn replay(ctx: &Ctx, check: &str, case: &Value) -> Result<(), String> {
+    if check == "hugelen" {
+        // deterministic: re-run the whole sub-check
+        return run_hugelen(ctx).map_err(|v| v.message);
+    }
     let live = Cell::new(true);
     let st = ctx.stats("replay", &live);
     let va = variant_of(ctx.api, case)?;
